@@ -211,9 +211,68 @@ def frames_independent_of_options():
     return None
 
 
+def options_through_builtin_glue():
+    """the options govern 'every hook, extract_child and fill_context invoked within' the call -- also those reached
+    through stackscope's own glue: a child-hosting manager that sits inside a @contextmanager generator"""
+    class Group:
+        def __init__(self, kids):
+            self.kids = kids
+
+        def __bool__(self):
+            return False
+
+        def __enter__(self):
+            return self
+
+        def __exit__(self, *a):
+            return False
+
+    @stackscope.elaborate_context.register(Group)
+    def _elab_group(mgr, context):
+        context.children = [stackscope.extract_child(k, for_task=True) for k in mgr.kids]
+
+    def kid():
+        yield "kid"
+
+    @contextlib.contextmanager
+    def holder(kids):
+        with Group(kids):
+            yield
+
+    def target(kids):
+        with holder(kids):
+            yield 1
+    kids = [kid(), kid()]
+    for k in kids:
+        next(k)
+    g = target(kids)
+    next(g)
+    try:
+        for rct in (True, False):
+            st = stackscope.extract(g, with_contexts=True, recurse_child_tasks=rct)
+            try:
+                inner = st.frames[0].contexts[0].inner_stack
+                got = [len(c.frames) for c in inner.frames[0].contexts[0].children]
+            except Exception as ex:
+                return "a child-hosting manager inside a @contextmanager generator: cannot find its context (%r)" % (ex,)
+            if got != ([1, 1] if rct else [0, 0]):
+                return ("recurse_child_tasks=%s does not govern the child stacks of a manager inside a @contextmanager generator: "
+                        "their frame counts are %s" % (rct, got))
+            if st.error is not None:
+                return "error %r" % (st.error,)
+    finally:
+        g.close()
+        for k in kids:
+            k.close()
+    return None
+
+
 def main():
     data = json.load(open(sys.argv[1]))
     out = {"n": 0, "steps": 0, "mismatches": []}
+    why2 = options_through_builtin_glue()
+    if why2:
+        out["mismatches"].append({"step": 0, "act": {"a": "extract through the contextlib glue"}, "diff": why2, "behaviour": -1})
     why = frames_independent_of_options()
     if why:
         out["mismatches"].append({"step": 0, "act": {"a": "extract under the four option pairs"}, "diff": why, "behaviour": -1})
